@@ -168,6 +168,64 @@ async fn scripted(ctx: &mut Ctx, nclients: usize, nworkers: usize, per: u32, cap
             }
         }
     }
+    // ---- a client goes away and comes back under its identity (a restarted instance);
+    // its next request must be answered on the new connection
+    let mut reconnected: Option<Peer> = None;
+    if seed % 3 == 0 {
+        clients[0].conn.close_full(crate::pipe::EndKind::Eof);
+        let newc = match Peer::attach_backend(fb.clone(), "REQ", Some(b"client-0")).await {
+            Ok(p) => p,
+            Err(e) => {
+                ctx.violation_with("C15/reconnecting-client-rejected", e, case.clone());
+                return;
+            }
+        };
+        let mut wire = vec![vec![]];
+        wire.extend(rc::tagged(0, 900, &[3]));
+        newc.send(&wire);
+        ctx.count("client_reconnects_under_its_identity");
+        let mut answered = false;
+        for _ in 0..400 {
+            if px.woken() {
+                if let Poll::Ready(res) = px.poll_once() {
+                    ctx.violation_with("C15/proxy-returned", format!("proxy ended after a client reconnected: {res:?}"), case.clone());
+                    return;
+                }
+            }
+            for (j, w) in workers.iter().enumerate() {
+                if let Ok(msgs) = w.out_msgs() {
+                    for m in msgs.iter().skip(worker_seen[j]) {
+                        if m.len() >= 3 && m[1].is_empty() {
+                            if let Ok(t) = rc::parse_tag(m, 2) {
+                                let mut reply = vec![m[0].clone(), vec![]];
+                                reply.extend(rc::tagged(1000 + t.origin, t.seq, &[2]));
+                                w.conn.feed(&rc::message(&reply));
+                            }
+                        }
+                    }
+                    worker_seen[j] = msgs.len();
+                }
+            }
+            if newc.out_msgs().map(|m| m.iter().any(|x| rc::parse_tag(x, 1).map(|t| t.seq == 900).unwrap_or(false))).unwrap_or(false) {
+                answered = true;
+                break;
+            }
+            sim::settle().await;
+            if !px.woken() && workers.iter().all(|w| w.conn.unread() == 0) && newc.conn.unread() == 0 {
+                break;
+            }
+        }
+        if !answered {
+            ctx.violation_with(
+                "C15/reply-lost-after-client-reconnect",
+                "a client reconnected under its identity and sent a request; the reply never reached its new connection".into(),
+                case.clone(),
+            );
+            return;
+        }
+        reconnected = Some(newc);
+    }
+    let _ = &reconnected;
     ctx.interleaving(trace);
     ctx.add("both_sides_ready_in_one_poll", both_ready);
     // ---- offline oracle over the taps
@@ -290,7 +348,8 @@ async fn scripted(ctx: &mut Ctx, nclients: usize, nworkers: usize, per: u32, cap
                 }
             }
         }
-        let ok = seen.len() == 2 * total as usize && seen.values().all(|n| *n == 1);
+        let extra = if reconnected.is_some() { 2 } else { 0 };
+        let ok = seen.len() == 2 * total as usize + extra && seen.values().all(|n| *n == 1);
         if !ok {
             ctx.violation_with(
                 "C15/capture-missing-or-duplicate",
@@ -497,6 +556,7 @@ impl Prop for C15 {
             ("both_sides_ready_in_one_poll", 100),
             ("runs_with_2_clients_and_2_workers", 50),
             ("capture_runs", 50),
+            ("client_reconnects_under_its_identity", 20),
             ("captured_copies", 1000),
         ]
     }
